@@ -339,7 +339,7 @@ Definition op_loop_init (m : mstate) (nofd : nat) (usable : bool) : prog (mstate
         else Create KPipe2 [OProc false; OProc true] true (fun a3 =>
                if is_ok a3 then k (set_ginit m)
                else (* abort(): the process is gone, and with it every descriptor it held *)
-                    CloseIf (fun _ => true) false (Ret (set_abort m, RC_ABORT))))
+                    CloseIf is_lib false (Ret (set_abort m, RC_ABORT))))
      (fun m =>
      (* uv__process_init -> uv_signal_init -> uv__signal_loop_once_init, signal.c:260-277 *)
      Create KPipe2 [OLoop l SSigR; OLoop l SSigW] true (fun a4 =>
